@@ -407,6 +407,12 @@ class Ctx:
         thms = re.findall(r'(?m)^\s*(?:Theorem|Lemma|Corollary)\s+([A-Za-z0-9_\']+)', strip_coq_comments(txt))
         deps = [props_rel[:-2] + '.vo'] + list(extra_targets)
         ok, out, cmd, dt = coq_make(deps)
+        if not ok and not re.search(r'File "([^"]+)", line (\d+)', out):
+            # no source location: a failure of the tool itself (e.g. coqdep scanning a directory that
+            # disappears); a proof that does not check names its file and line and fails again
+            log('[obligations] build failed without a source location, retrying once:\n' + out[-600:])
+            time.sleep(2)
+            ok, out, cmd, dt = coq_make(deps)
         self.checker_cmds.append('cd coq && ' + cmd)
         if not ok:
             self.obligations += len(thms)
